@@ -44,10 +44,13 @@ def toposort2(data):
     data.update(dict([(item,set()) for item in extra_items_in_deps]))
 
     while True:
-        ordered = set(item for item,dep in data.items() if len(dep) == 0)
+        # a list in the (insertion) order of the data: sorted() is stable, so
+        # items that share a repr don't come out in the order of a set.
+        ordered = [item for item,dep in data.items() if len(dep) == 0]
         if len(ordered) == 0:
             break
         yield sorted(ordered, key=lambda x:repr(x))
+        ordered = set(ordered)
         data = dict([(item, (dep - ordered)) for item,dep in data.items()
                                                         if item not in ordered])
 
